@@ -257,15 +257,16 @@ class MultipartDecoder:
 
         if self.buffer.find(boundary) == -1:
             # No complete boundary in the buffer, but there may be
-            # a partial boundary at the end. As the boundary
-            # starts with either a nl or cr find the earliest and
-            # return up to that as data.
-            data_end = del_index = self.last_newline(data[data_start:]) + data_start
-            # If amount of data after last newline is far from
-            # possible length of partial boundary, we should
-            # assume that there is no partial boundary in the buffer
-            # and return all pending data.
-            if (len(data) - data_end) > len(b"\n" + boundary):
+            # a partial boundary at the end. A partial boundary is a
+            # line break followed by a proper prefix of the boundary,
+            # so it can only start in the last len("\n" + boundary)
+            # bytes. Return everything before the first line break in
+            # that tail as data, and keep the rest for the next call.
+            tail_start = max(data_start, len(data) - len(b"\n" + boundary))
+            match = LINE_BREAK_RE.search(data, tail_start)
+            if match is not None:
+                data_end = del_index = match.start()
+            else:
                 data_end = del_index = len(data)
             more_data = True
         else:
